@@ -462,24 +462,25 @@ def fracLoop : Nat → Nat → Bool → List Char → List Char × Nat
 
 def natStr (n : Nat) : List Char := natDigits n
 
+/-- `time.Duration.String` for the magnitude `u` (nanoseconds) -/
+def durBody (u : Nat) : List Char :=
+  if u = 0 then ['0', 's']
+  else if u < 1000 then natStr (fracLoop 0 u false []).2 ++ (fracLoop 0 u false []).1 ++ ['n', 's']
+  else if u < 1000000 then natStr (fracLoop 3 u false []).2 ++ (fracLoop 3 u false []).1 ++ ['µ', 's']
+  else if u < 1000000000 then natStr (fracLoop 6 u false []).2 ++ (fracLoop 6 u false []).1 ++ ['m', 's']
+  else
+    let frac := (fracLoop 9 u false []).1
+    let secs := (fracLoop 9 u false []).2
+    let tail := natStr (secs % 60) ++ frac ++ ['s']
+    let m := secs / 60
+    if m = 0 then tail else
+      let tail := natStr (m % 60) ++ ['m'] ++ tail
+      let h := m / 60
+      if h = 0 then tail else natStr h ++ ['h'] ++ tail
+
 /-- `time.Duration.String` -/
 def durString (d : Int) : String :=
-  let u := d.natAbs
-  let body : List Char :=
-    if u = 0 then "0s".toList
-    else if u < 1000000000 then
-      let (prec, unit) := if u < 1000 then (0, "ns") else if u < 1000000 then (3, "µs") else (6, "ms")
-      let (frac, w) := fracLoop prec u false []
-      natStr w ++ frac ++ unit.toList
-    else
-      let (frac, secs) := fracLoop 9 u false []
-      let tail := natStr (secs % 60) ++ frac ++ ['s']
-      let m := secs / 60
-      if m = 0 then tail else
-        let tail := natStr (m % 60) ++ ['m'] ++ tail
-        let h := m / 60
-        if h = 0 then tail else natStr h ++ ['h'] ++ tail
-  String.ofList (if d < 0 ∧ u ≠ 0 then '-' :: body else body)
+  String.ofList (if d < 0 ∧ d.natAbs ≠ 0 then '-' :: durBody d.natAbs else durBody d.natAbs)
 
 def durUnit : List Char → Option Nat
   | ['n', 's'] => some 1
@@ -497,43 +498,56 @@ inductive DurRes where
   | err
   | unmodelled
 
+/-- the optional fraction after the integer digits: its digits, and what follows -/
+def splitFrac : List Char → List Char × List Char
+  | '.' :: r => (r.takeWhile isDigit, r.dropWhile isDigit)
+  | r => ([], r)
+
+/-- the characters of a unit: neither digits nor the point -/
+def unitChar (c : Char) : Bool := !(isDigit c) && c != '.'
+
+/-- one segment `[0-9]*(\.[0-9]*)?[a-zµμ]+` of `time.ParseDuration`: its value and the rest of the input -/
+def parseSeg (cs : List Char) : DurRes × List Char :=
+  let ip := cs.takeWhile isDigit
+  let r1 := cs.dropWhile isDigit
+  let fp := (splitFrac r1).1
+  let r2 := (splitFrac r1).2
+  if ip.isEmpty && fp.isEmpty then (.err, []) else
+  let us := r2.takeWhile unitChar
+  let r3 := r2.dropWhile unitChar
+  match durUnit us with
+  | none => (.err, [])
+  | some unit =>
+    let v := digitsVal ip
+    if v > two63 then (.err, []) else
+    if v > two63 / unit then (.err, []) else
+    let scale := 10 ^ fp.length
+    let f := digitsVal fp
+    if f ≥ two63 / 10 then (.unmodelled, []) else
+    if f ≠ 0 ∧ unit % scale ≠ 0 then (.unmodelled, []) else
+    let v := v * unit + f * (unit / scale)
+    if v > two63 then (.err, []) else (.ok v, r3)
+
 /-- the segment loop of `time.ParseDuration`; `fuel` ≥ length of the input -/
 def parseDurSegs : Nat → List Char → Nat → DurRes
   | 0, _, _ => .unmodelled
   | _ + 1, [], acc => .ok acc
-  | fuel + 1, cs, acc =>
-    let ip := cs.takeWhile isDigit
-    let r1 := cs.dropWhile isDigit
-    let (fp, r2, hasDot) := match r1 with
-      | '.' :: r => (r.takeWhile isDigit, r.dropWhile isDigit, true)
-      | r => ([], r, false)
-    if ip.isEmpty && fp.isEmpty then .err else
-    let _ := hasDot
-    let us := r2.takeWhile (fun c => !(isDigit c) && c != '.')
-    let r3 := r2.dropWhile (fun c => !(isDigit c) && c != '.')
-    match durUnit us with
-    | none => .err
-    | some unit =>
-      let v := digitsVal ip
-      if v ≥ two63 then .err else
-      if v > two63 / unit then .err else
-      let scale := 10 ^ fp.length
-      let f := digitsVal fp
-      if f ≥ two63 / 10 then .unmodelled else
-      if f ≠ 0 ∧ unit % scale ≠ 0 then .unmodelled else
-      let v := v * unit + f * (unit / scale)
-      if v > two63 then .err else
-      let acc := acc + v
-      if acc > two63 then .err else
-      parseDurSegs fuel r3 acc
+  | fuel + 1, c :: cs, acc =>
+    match parseSeg (c :: cs) with
+    | (.ok v, r3) => if acc + v > two63 then .err else parseDurSegs fuel r3 (acc + v)
+    | (.err, _) => .err
+    | (.unmodelled, _) => .unmodelled
+
+/-- the optional sign -/
+def splitSign : List Char → Bool × List Char
+  | '-' :: r => (true, r)
+  | '+' :: r => (false, r)
+  | r => (false, r)
 
 /-- `time.ParseDuration` -/
 def parseDuration (s : String) : Out :=
-  let cs := s.toList
-  let (neg, cs) := match cs with
-    | '-' :: r => (true, r)
-    | '+' :: r => (false, r)
-    | r => (false, r)
+  let neg := (splitSign s.toList).1
+  let cs := (splitSign s.toList).2
   if cs = ['0'] then .ok (.int 0) else
   if cs.isEmpty then .err "invalid-duration" else
   match parseDurSegs (cs.length + 1) cs 0 with
